@@ -162,7 +162,7 @@ theorem pur_flattenOptsNS {t : VTy} {v : Val} (h : HasTy E (.list (.optNS t)) v)
   obtain ⟨o, ho, hox⟩ := List.mem_filterMap.mp hx
   exact hos o ho x hox
 
-theorem pur_simpleType (name : String) (k : TypeKind) (a b : Nat) (hk : k ≠ .array) :
+theorem pur_simpleType (name : String) (k : TypeKind) (a b : Nat) (hk : leafKind k = true) :
     Pur env (simpleType name k a b) (HasTy E .ty) := by
   unfold simpleType
   exact Pur.bind (pur_mkRange a b) (fun _ _ => Pur.pure _ (TyWF.leaf _ _ _ _ hk))
